@@ -76,6 +76,8 @@ type runState struct {
 	dfs        [][]string
 	dfsErr     []error
 	cancelSeq  uint64 // first cancel() issued
+	cancelSlp  []int  // per graph: sleeps the Run goroutine had started when cancel() was issued
+	retSlp     []int  // ... when Run returned
 	cancelPre  bool   // cancel() was issued before any Run was called
 	failSeq    uint64 // first final failure
 	writes     []bytes.Buffer
@@ -190,6 +192,7 @@ func Execute(sc *Scenario, ch simrt.Chooser, keepTrace bool) *Result {
 	r.returned = make([]bool, ng)
 	r.retSeq = make([]uint64, ng)
 	r.obsSeq = make([]uint64, ng)
+	r.cancelSlp, r.retSlp = make([]int, ng), make([]int, ng)
 	r.snapAtt, r.snapFinal, r.snapInFn, r.snapNEnt = make([][]int, ng), make([][]string, ng), make([][]bool, ng), make([]int, ng)
 	r.dfs = make([][]string, ng)
 	r.dfsErr = make([]error, ng)
@@ -258,6 +261,9 @@ func (r *runState) doCancel(cancel context.CancelFunc, kind string) {
 	if r.cancelSeq == 0 {
 		r.cancelSeq = simrt.Note("cancel", kind)
 		r.histAdd("cancel " + kind)
+		for g := 0; g < r.ng; g++ {
+			r.cancelSlp[g] = simrt.SleepCount(fmt.Sprintf("run:g%d", g))
+		}
 	}
 	r.res.Faults[kind]++
 	cancel()
@@ -445,6 +451,12 @@ func (r *runState) main() {
 				gr.AddTask(dag.NewTask(fmt.Sprintf("t%02d", c.T), nil))
 			case "addnoid":
 				gr.AddTask(dag.NewTask("", func(context.Context, *getoptions.GetOpt, []string) error { return nil }))
+			case "dfs":
+				gr.DepthFirstSort()
+			case "validate":
+				gr.Validate(nil)
+			case "string":
+				_ = gr.String()
 			}
 		}
 		graphs[g] = gr
@@ -479,6 +491,7 @@ func (r *runState) main() {
 			name := fmt.Sprintf("g%d", g)
 			r.runErr[g] = graphs[g].Run(ctx, nil, []string{name})
 			r.returned[g] = true
+			r.retSlp[g] = simrt.SleepCount(name2run(g))
 			r.snapAtt[g] = append([]int(nil), r.attempts[g]...)
 			r.snapFinal[g] = append([]string(nil), r.finalRes[g]...)
 			r.snapInFn[g] = append([]bool(nil), r.inFn[g]...)
@@ -525,6 +538,8 @@ func (r *runState) onSettled(gname string) {
 		}
 	}
 }
+
+func name2run(g int) string { return fmt.Sprintf("run:g%d", g) }
 
 func limStr(l int) string {
 	if l >= 1<<30 {
@@ -751,6 +766,16 @@ func (r *runState) posthocGraph(g int) {
 		res.Probes["launches_between_cancel_and_observation"] += launched
 	} else if r.cancelSeq != 0 && r.cancelSeq < r.retSeq[g] {
 		res.Probes["cancel_issued_but_never_observed"]++
+	}
+	// O14f: the scheduler does not keep polling past a cancelled context: if, after cancel() was
+	// called, the goroutine running Run went to sleep three or more times (three full idle cycles
+	// of its loop) and Run then returned nil, the cancellation check is ineffective.
+	if cancelled && !r.cancelPre && err == nil {
+		if n := r.retSlp[g] - r.cancelSlp[g]; n >= 3 {
+			r.fail("C14", "O14f", r.retSeq[g], "g%d: cancel() was called while Run was active, the scheduler loop slept %d more times (idle poll cycles) without noticing, and Run returned nil", g, n)
+		} else {
+			res.Probes["cancel_not_reported_fewer_than_3_idle_cycles"]++
+		}
 	}
 	// O14e: a context cancelled before Run is called is not ignored
 	if r.cancelPre && err == nil {
